@@ -21,6 +21,8 @@ A probe is a dict:
     key       known-defect pattern key this probe demonstrates, if any
     src       the complete Rust program
     externs   extra crates to pass with --extern (e.g. ["hashbrown"])
+    also      further table entries the same program is an attack on (the prediction is "accepted" if
+              any of `entry`, `also` violates the table hypothesis)
 """
 
 PRELUDE = r'''#![allow(unused, dead_code)]
@@ -245,6 +247,85 @@ def c13_probes(dw):
                 "x: Gc<'gc, Result<Slot<'gc>, Slot<'gc>>>", "x: Gc::new(mc, Err(RefLock::new(None)))",
                 body="        *root.x.as_ref().as_write().err().unwrap().unlock().borrow_mut() = Some(child);",
                 check="root.x.as_ref().as_ref().err().unwrap().borrow().is_some()"))
+
+    # ---- client-written `Index` impls (downstream crate) ------------------------------------------
+    # `IndexWrite<I>: Index<I>` must only ever run upstream's (std's / hashbrown's) `index`.  For each
+    # receiver class with IndexWrite entries: the client implements `Index<Through>` (where coherence
+    # lets it) looking *through* a `Gc` stored in the container, then indexes a `&Write<container>`
+    # with it: the barrier was applied to the container's allocation only.  Must be rejected.
+    CLIENT_ITEMS = '''
+use std::ops::Index;
+use std::borrow::Borrow;
+use std::collections::{BTreeMap, HashMap, VecDeque};
+/// A client-side index type.
+{derive}struct Through;
+type GSlot<'gc> = Gc<'gc, Slot<'gc>>;
+'''
+    by_recv = {}
+    for p in dw["projs"]:
+        if p["kind"] == "index":
+            by_recv.setdefault(p["recv"], []).append(f"proj: {p['text']}")
+
+    def client(recv, tag, derive, impls, holder, body, note, externs=()):
+        ents = by_recv.get(recv)
+        if not ents:
+            return
+        src = _black_parent(holder[0], holder[1], body=body, check=holder[2],
+                            extra_items=CLIENT_ITEMS.replace("{derive}", derive) + impls)
+        P.append(dict(name=f"c13-index-{recv.lower()}-client-index{tag}", prop="C13", entry=ents[0], also=ents[1:], role="attack",
+                      run=True, key=None, src=src, externs=list(externs), note=note))
+
+    THROUGH_IMPL = "impl<'gc> Index<Through> for {ty} {{ type Output = Slot<'gc>; fn index(&self, _: Through) -> &Slot<'gc> {{ &*self{first} }} }}\n"
+    vec_holder = ("x: Gc<'gc, Vec<GSlot<'gc>>>", "x: Gc::new(mc, vec![Gc::new(mc, RefLock::new(None))])", "root.x[0].borrow().is_some()")
+    STORE = ".unlock().borrow_mut() = Some(child); // the barrier reached the container's allocation only"
+    client("vec", "", "", THROUGH_IMPL.format(ty="Vec<GSlot<'gc>>", first="[0]"), vec_holder,
+           f"        *Gc::write(mc, root.x)[Through]{STORE}", "impl Index<Through> for Vec<Gc<..>>")
+    client("slice", "", "", THROUGH_IMPL.format(ty="[GSlot<'gc>]", first="[0]"), vec_holder,
+           f"        *Gc::write(mc, root.x).as_deref()[Through]{STORE}", "impl Index<Through> for [Gc<..>]")
+    arr_holder = ("x: Gc<'gc, [GSlot<'gc>; 1]>", "x: Gc::new(mc, [Gc::new(mc, RefLock::new(None))])", "root.x[0].borrow().is_some()")
+    client("array", "", "", THROUGH_IMPL.format(ty="[GSlot<'gc>; 1]", first="[0]"), arr_holder,
+           f"        *Gc::write(mc, root.x)[Through]{STORE}", "impl Index<Through> for [Gc<..>; 1]")
+    client("array", "-via-slice", "", THROUGH_IMPL.format(ty="[GSlot<'gc>]", first="[0]"), arr_holder,
+           f"        *Gc::write(mc, root.x)[Through]{STORE} // std's array impl forwards to the client's slice impl",
+           "impl Index<Through> for [Gc<..>] reached through std's `impl Index<I> for [T; N] where [T]: Index<I>`")
+    client("vecDeque", "", "", THROUGH_IMPL.format(ty="VecDeque<GSlot<'gc>>", first="[0]"),
+           ("x: Gc<'gc, VecDeque<GSlot<'gc>>>", "x: Gc::new(mc, VecDeque::from(vec![Gc::new(mc, RefLock::new(None))]))", "root.x[0].borrow().is_some()"),
+           f"        *Gc::write(mc, root.x)[Through]{STORE}", "impl Index<Through> for VecDeque<Gc<..>>")
+    REF_IMPL = "impl<'a, 'gc> Index<&'a Through> for {ty} {{ type Output = Slot<'gc>; fn index(&self, _: &'a Through) -> &Slot<'gc> {{ &*self[&1u8] }} }}\n"
+    BORROW = "impl Borrow<Through> for u8 { fn borrow(&self) -> &Through { &Through } }\n"
+    for recv, ty, ctor, derive_b, externs in (
+            ("btreeMap", "BTreeMap<u8, GSlot<'gc>>", "BTreeMap::from([(1u8, Gc::new(mc, RefLock::new(None)))])", "#[derive(PartialEq, Eq, PartialOrd, Ord)] ", ()),
+            ("hashMap", "HashMap<u8, GSlot<'gc>>", "HashMap::from([(1u8, Gc::new(mc, RefLock::new(None)))])", "#[derive(PartialEq, Eq, Hash)] ", ()),
+            ("hbHashMap", "hashbrown::HashMap<u8, GSlot<'gc>, std::collections::hash_map::RandomState>",
+             "{ let mut m = hashbrown::HashMap::with_hasher(std::collections::hash_map::RandomState::new()); m.insert(1u8, Gc::new(mc, RefLock::new(None))); m }",
+             "#[derive(PartialEq, Eq, Hash)] ", ("hashbrown",))):
+        holder = (f"x: Gc<'gc, {ty}>", f"x: Gc::new(mc, {ctor})", "root.x[&1u8].borrow().is_some()")
+        # (a) the key type does not borrow as `Through`: the client's Index impl is legal, but the
+        #     crate's IndexWrite<&Q> impl (whose where-clauses imply upstream's) does not apply
+        client(recv, "", "", REF_IMPL.format(ty=ty), holder, f"        *Gc::write(mc, root.x)[&Through]{STORE}",
+               f"impl Index<&Through> for {ty.split('<')[0]}<u8, Gc<..>> (u8 does not borrow as Through)", externs)
+        # (b) it does: then upstream's Index<&Q> impl applies and the client's overlaps with it
+        client(recv, "-with-borrow", derive_b, BORROW + REF_IMPL.format(ty=ty), holder, f"        *Gc::write(mc, root.x)[&Through]{STORE}",
+               f"impl Index<&Through> for {ty.split('<')[0]}<u8, Gc<..>> with `u8: Borrow<Through>` (overlaps upstream's impl)", externs)
+    # the marker traits themselves must not be implementable without `unsafe`
+    P.append(dict(name="c13-marker-client-indexwrite", prop="C13", entry="marker-traits-not-unsafe", role="attack", run=True, key=None, externs=[],
+                  src=_black_parent(vec_holder[0], vec_holder[1], check=vec_holder[2],
+                                    body=f"        *Gc::write(mc, root.x)[Through]{STORE}",
+                                    extra_items=CLIENT_ITEMS.replace("{derive}", "") + THROUGH_IMPL.format(ty="Vec<GSlot<'gc>>", first="[0]")
+                                    + "impl<'gc> barrier::IndexWrite<Through> for Vec<GSlot<'gc>> {} // no `unsafe`\n")))
+    P.append(dict(name="c13-marker-client-derefwrite", prop="C13", entry="marker-traits-not-unsafe", role="attack", run=True, key=None, externs=[],
+                  src=_black_parent("x: Gc<'gc, Ptr<'gc>>", "x: Gc::new(mc, Ptr(Gc::new(mc, RefLock::new(None))))", check="root.x.0.borrow().is_some()",
+                                    body=f"        *Gc::write(mc, root.x).as_deref(){STORE}",
+                                    extra_items="\n#[derive(Collect)]\n#[collect(no_drop)]\nstruct Ptr<'gc>(Gc<'gc, Slot<'gc>>);\n"
+                                    "impl<'gc> std::ops::Deref for Ptr<'gc> { type Target = Slot<'gc>; fn deref(&self) -> &Slot<'gc> { &*self.0 } }\n"
+                                    "impl<'gc> barrier::DerefWrite for Ptr<'gc> {} // no `unsafe`\n")))
+    # the DerefWrite angle: `Deref` has no type parameter, so no downstream impl on a foreign receiver
+    add("deref-vec-client-deref", next((f"proj: {p['text']}" for p in dw["projs"] if p["kind"] == "deref" and p["recv"] == "vec"), "proj: DerefWrite for Vec"),
+        "misuse", PRELUDE + "type GSlot<'gc> = Gc<'gc, Slot<'gc>>;\n"
+        "impl<'gc> std::ops::Deref for Vec<GSlot<'gc>> { type Target = Slot<'gc>; fn deref(&self) -> &Slot<'gc> { &*self[0] } } // orphan rule\nfn main() {}\n")
+    add("deref-box-client-deref", next((f"proj: {p['text']}" for p in dw["projs"] if p["kind"] == "deref" and p["recv"] == "box"), "proj: DerefWrite for Box"),
+        "misuse", PRELUDE + "struct Wrap<'gc>(Gc<'gc, Slot<'gc>>);\n"
+        "impl<'gc> std::ops::Deref for Box<Wrap<'gc>> { type Target = Slot<'gc>; fn deref(&self) -> &Slot<'gc> { &*self.0 } } // Box<Local> is local, but overlaps std's blanket impl\nfn main() {}\n")
 
     # ---- Unlock impls --------------------------------------------------------------------------
     for u in dw["unlocks"]:
